@@ -41,7 +41,10 @@ SAN = ["-fsanitize=address,undefined", "-fno-sanitize-recover=all", "-fno-omit-f
 FLAVOURS = {
     "asan": [STD, "-O1", "-g"] + SAN,
     "asan-ndebug": [STD, "-O1", "-g"] + SAN + ["-DNDEBUG"],
-    "plain": [STD, "-O1", "-g", "-gdwarf-4"],   # valgrind 3.19 cannot read clang's DWARF 5
+    # valgrind 3.19 cannot read clang's DWARF 5. -O0: at -O1 clang copies a std::optional<uint8_t> (value byte +
+    # engaged byte) as one 16-bit word and tests it, which memcheck reports as a jump on an uninitialised value
+    # although only the (never read) value byte is undefined - gone at -O0, so not a defect of the generated code
+    "plain": [STD, "-O0", "-g", "-gdwarf-4"],
 }
 ASAN_OPTIONS = ("halt_on_error=1:abort_on_error=1:detect_leaks=1:max_allocation_size_mb=512:"
                 "handle_abort=1")   # handle_abort: stack trace for assert() / terminate
